@@ -83,6 +83,41 @@ impl gen::pq_greeter::greeter_server::Greeter for Impl {
 
 impl gen::p_empty::empty_server::Empty for Impl {}
 
+#[anemo::async_trait]
+impl gen::c17_probe::probe_server::Probe for Impl {
+    async fn unit_b(&self, r: Request<gen::Unit>) -> Result<Response<gen::Unit>, Status> {
+        self.log.lock().unwrap().push("Probe.unit_b".into());
+        Ok(Response::new(r.into_inner()))
+    }
+    async fn unit_j(&self, r: Request<gen::Unit>) -> Result<Response<gen::Unit>, Status> {
+        self.log.lock().unwrap().push("Probe.unit_j".into());
+        Ok(Response::new(r.into_inner()))
+    }
+    async fn opt_b(&self, r: Request<Option<Msg>>) -> Result<Response<Option<Msg>>, Status> {
+        self.log.lock().unwrap().push(format!("Probe.opt_b:{}", r.inner().is_some()));
+        Ok(Response::new(r.into_inner()))
+    }
+    async fn opt_j(&self, r: Request<Option<Msg>>) -> Result<Response<Option<Msg>>, Status> {
+        self.log.lock().unwrap().push(format!("Probe.opt_j:{}", r.inner().is_some()));
+        Ok(Response::new(r.into_inner()))
+    }
+}
+
+/// payload bytes for a row of the edge table
+fn edge_payload(codec: &str, kind: &str, payload: &str, some: bool) -> Bytes {
+    let m = Msg { a: 5, s: "edge".into() };
+    match (payload, codec, kind) {
+        ("empty", _, _) => Bytes::new(),
+        ("garbage", "json", _) => Bytes::from_static(b"{not json"),
+        ("garbage", _, "unit") => Bytes::from_static(&[0xff]),      // trailing bytes after a zero-length value
+        ("garbage", _, _) => Bytes::from_static(&[0x07]),           // invalid Option tag
+        ("good", "json", "unit") => Bytes::from(serde_json::to_vec(&gen::Unit).unwrap()),
+        ("good", "json", _) => Bytes::from(serde_json::to_vec(&if some { Some(m) } else { None }).unwrap()),
+        ("good", _, "unit") => Bytes::from(bincode::serialize(&gen::Unit).unwrap()),
+        (_, _, _) => Bytes::from(bincode::serialize(&if some { Some(m) } else { None }).unwrap()),
+    }
+}
+
 pub fn replay(a: &Args) -> i32 {
     let tables: Value = serde_json::from_str(&std::fs::read_to_string(a.str("table", "")).expect("tables")).unwrap();
     let mut mismatches: Vec<Value> = Vec::new();
@@ -149,7 +184,8 @@ pub fn replay(a: &Args) -> i32 {
         .add_rpc_service(gen::root_greeter::greeter_server::GreeterServer::new(mk("Greeter")))
         .add_rpc_service(gen::root_greet::greet_server::GreetServer::new(mk("Greet")))
         .add_rpc_service(gen::pq_greeter::greeter_server::GreeterServer::new(mk("p.q.Greeter")))
-        .add_rpc_service(gen::p_empty::empty_server::EmptyServer::new(mk("p.Empty")));
+        .add_rpc_service(gen::p_empty::empty_server::EmptyServer::new(mk("p.Empty")))
+        .add_rpc_service(gen::c17_probe::probe_server::ProbeServer::new(mk("Probe")));
     let rt = tokio::runtime::Builder::new_current_thread().enable_all().build().unwrap();
     let mut check = |name: &str, want_log: &str, res: Result<Response<Msg>, Status>, row: &Value, n: u32, mismatches: &mut Vec<Value>| {
         let exp = &row["expect"];
@@ -210,6 +246,53 @@ pub fn replay(a: &Args) -> i32 {
             }
         }
     }
+    // (c) message types with an empty or "nothing" encoding: a payload reaches the handler / the
+    // typed caller iff the specification says the method's codec decodes it as the method's type
+    for row in tables["codegen_edges"].as_array().unwrap() {
+        let (codec, kind, payload) = (row["codec"].as_str().unwrap(), row["kind"].as_str().unwrap(), row["payload"].as_str().unwrap());
+        let decodable = row["decodable"].as_bool().unwrap();
+        let (path, method) = match (codec, kind) {
+            ("bincode", "unit") => ("/c17.Probe/UnitB", "unit_b"),
+            ("json", "unit") => ("/c17.Probe/UnitJ", "unit_j"),
+            ("bincode", _) => ("/c17.Probe/OptB", "opt_b"),
+            _ => ("/c17.Probe/OptJ", "opt_j"),
+        };
+        for some in [false, true] {
+            evaluations += 1;
+            let body = edge_payload(codec, kind, payload, some);
+            if row["dir"] == "request" {
+                let mut r = router.clone();
+                let resp = rt.block_on(r.call(Request::new(body.clone()).with_route(path))).unwrap();
+                let ran = log.lock().unwrap().drain(..).collect::<Vec<_>>();
+                let want_ran: Vec<String> = if !decodable { vec![] } else if kind == "unit" { vec![format!("Probe.{method}")] } else { vec![format!("Probe.{method}:{}", payload == "good" && some)] };
+                let ok = if decodable { resp.status() == StatusCode::Success && resp.body() == &edge_payload(codec, kind, "good", payload == "good" && some) } else { resp.status() != StatusCode::Success };
+                if !ok || ran != want_ran {
+                    mismatches.push(json!({"what": format!("{path}: request payload {payload:?} ({} bytes) answered {:?} with {} body bytes, handlers run {ran:?} (expected {want_ran:?})", body.len(), resp.status(), resp.body().len()), "row": row}));
+                }
+            } else {
+                let b2 = body.clone();
+                let canned = tower::service_fn(move |_req: Request<Bytes>| {
+                    let b = b2.clone();
+                    async move { Ok::<_, std::convert::Infallible>(Response::new(b)) }
+                });
+                let mut c = gen::c17_probe::probe_client::ProbeClient::new(canned);
+                let got: Result<String, StatusCode> = match method {
+                    "unit_b" => rt.block_on(c.unit_b(gen::Unit)).map(|r| format!("{:?}", r.into_inner())).map_err(|s| s.status()),
+                    "unit_j" => rt.block_on(c.unit_j(gen::Unit)).map(|r| format!("{:?}", r.into_inner())).map_err(|s| s.status()),
+                    "opt_b" => rt.block_on(c.opt_b(None)).map(|r| format!("{:?}", r.into_inner().is_some())).map_err(|s| s.status()),
+                    _ => rt.block_on(c.opt_j(None)).map(|r| format!("{:?}", r.into_inner().is_some())).map_err(|s| s.status()),
+                };
+                let want_ok = if kind == "unit" { "Unit".to_owned() } else { format!("{:?}", payload == "good" && some) };
+                let ok = match &got {
+                    Ok(v) => decodable && *v == want_ok,
+                    Err(_) => !decodable,
+                };
+                if !ok {
+                    mismatches.push(json!({"what": format!("{method}: response payload {payload:?} ({} bytes) surfaced as {got:?} (decodable: {decodable})", body.len()), "row": row}));
+                }
+            }
+        }
+    }
     // a response the client cannot decode, and a non-success status, surface as Err
     {
         evaluations += 2;
@@ -231,7 +314,8 @@ pub fn replay(a: &Args) -> i32 {
         }
     }
     mismatches.truncate(8);
-    let rows = tables["codegen_paths"].as_array().unwrap().len() + tables["codegen_pipeline"].as_array().unwrap().len();
+    let rows = tables["codegen_paths"].as_array().unwrap().len() + tables["codegen_pipeline"].as_array().unwrap().len()
+        + tables["codegen_edges"].as_array().unwrap().len();
     print_summary(&json!({"evaluations": evaluations, "rows": rows, "mismatches": mismatches}));
     0
 }
